@@ -33,7 +33,10 @@ CONSTANTS MaxLen,   \* command lines per history
           Sample    \* BOOLEAN: -simulate only (one random line per step)
 
 Fams == {"legacy", "keyed", "session", "unsigned"}
-Lines == {"vopen", "vperm", "valias", "vargs w", "vnone", "vnone a b", "VOPEN", "vopen "}
+\* a line is the command text after the one slash that marks a command; "/vopen" and "//vnone x" are
+\* lines that themselves begin with slashes (typed "//vopen", "///vnone x", e.g. WorldEdit's "//wand"):
+\* they name no proxy command, even if the text after the extra slashes does
+Lines == {"vopen", "vperm", "valias", "vargs w", "vnone", "vnone a b", "VOPEN", "vopen ", "/vopen", "//vnone x"}
 Targets == {"", "vopen", "vperm", "vargs z", "vother x"}
 
 Registered(line) == line \in {"vopen", "vperm", "valias", "vargs w", "vargs z"}
